@@ -468,6 +468,21 @@ func genBatch(w *Worker, id string, cases []*genCase, name string) {
 				o.inputs = append(o.inputs, string(b))
 			}
 		}
+		// plus long sentences (family grammars): lengths around 16, 32 and 64, where a parser stack of a
+		// fixed initial size would have to grow
+		if strings.HasPrefix(c.Origin, "family:") {
+			for _, sent := range g.SentencesOfLength([]int{14, 15, 16, 17, 18, 30, 31, 32, 33, 34, 62, 63, 64, 65, 66}) {
+				var b []byte
+				for _, t := range sent {
+					b = append(b, d.Chars[g.Names[t]])
+				}
+				if !have[string(b)] {
+					have[string(b)] = true
+					o.inputs = append(o.inputs, string(b))
+					w.Count("long_sentences", 1)
+				}
+			}
+		}
 		for vi, v := range variants {
 			pkg := fmt.Sprintf("p%d_%d", i, vi)
 			o.items[v] = b.Add(pkg, v, d)
